@@ -75,3 +75,11 @@ pub type RefInnerEdge<'a, K, N, E> = (&'a WeakNode<K, N, E>, &'a E);
 pub open spec fn ev<K, N, E>(s: Seq<(WeakNode<K, N, E>, E)>) -> Seq<(K, E)> {
     s.map_values(|e: (WeakNode<K, N, E>, E)| (e.0.k(), e.1))
 }
+
+// TRUSTED (DESIGN §8.7): a Vec of non-zero-sized elements never holds more than isize::MAX
+// elements (allocation limit of the Rust standard library). Adjacency entries contain a Weak
+// pointer, so they are never zero-sized.
+#[verifier::external_body]
+pub proof fn axiom_vec_len_isize<K, N, E>(v: &Vec<(WeakNode<K, N, E>, E)>)
+    ensures v@.len() <= isize::MAX
+{}
